@@ -369,6 +369,50 @@ pub fn run(tier: Tier) -> Report {
             let _ = std::fs::remove_file(p);
         }
     });
+    // spellings of the option values: every way a real (for -z / -t) and a count (for -d) can be written
+    // as a separate argument
+    for (flag, dim, col) in [("-z", "3", 2usize), ("-t", "4", 3usize)] {
+        for sp in ["0", "7", "+2.5", "-3", "-0.5", "-.5", "-5.", "1e3", "-1e3", "-1e-3", "-1.5e-3", "-1E-3", "-1e+3", "-12345.678"] {
+            let args: Vec<String> = [flag, sp, "-d", "6", "-D", dim, "addone"].iter().map(|s| s.to_string()).collect();
+            rep.eval(1);
+            let want: f64 = sp.parse().unwrap();
+            match run_kp(&wd, &args, Some("1 2\n")) {
+                Ok(run) => {
+                    let got: Vec<f64> = run.stdout.split_whitespace().filter_map(|t| t.parse().ok()).collect();
+                    if run.status != Some(0) || got.len() != col + 1 || (got[col] - want).abs() > 1e-6 || got[0] != 2. {
+                        rep.violation(
+                            &format!("the {flag} value is not used for the missing column / value written as a {} real", if sp.starts_with('-') { "negative" } else { "non-negative" }),
+                            json!({"args": args, "input": "1 2", "status": run.status, "stdout": run.stdout.chars().take(200).collect::<String>(), "stderr_head": run.stderr.chars().take(200).collect::<String>()}),
+                        );
+                    }
+                }
+                Err(e) => rep.machinery_error(e),
+            }
+        }
+    }
+    for d in [0usize, 1, 17, 400, 65535, 65536, 100000] {
+        let args: Vec<String> = ["-d", &d.to_string(), "-D", "2", "addone"].iter().map(|s| s.to_string()).collect();
+        rep.eval(1);
+        match run_kp(&wd, &args, Some("1 2\n3 4\n")) {
+            Ok(run) => {
+                let lines: Vec<Vec<f64>> = run.stdout.lines().map(|l| l.split_whitespace().filter_map(|t| t.parse().ok()).collect()).collect();
+                if run.status != Some(0) || lines != vec![vec![2., 2.], vec![4., 4.]] {
+                    rep.violation(
+                        "requested number of decimals not honoured (or no orderly end) / -d value",
+                        json!({"args": args, "input": "1 2\n3 4", "status": run.status, "stdout_head": run.stdout.chars().take(100).collect::<String>(), "stderr_head": run.stderr.chars().take(200).collect::<String>()}),
+                    );
+                } else if d <= 400 {
+                    // exactly d decimals
+                    let first = run.stdout.split_whitespace().next().unwrap_or("");
+                    let decimals = first.split('.').nth(1).map(|f| f.len()).unwrap_or(0);
+                    if decimals != d {
+                        rep.violation("requested number of decimals not honoured (or no orderly end) / -d value", json!({"args": args, "first_number": first}));
+                    }
+                }
+            }
+            Err(e) => rep.machinery_error(e),
+        }
+    }
     // unreadable input: error message and non-zero status — for every way a file can be unreadable
     // (does not exist; opens but cannot be read: a directory; readable up to a line that is not UTF-8),
     // alone and as the second of two files
